@@ -16,6 +16,73 @@ fn opt(o: Option<usize>) -> String {
     o.map_or("none".into(), |b| format!("some {}", b))
 }
 
+/// `eval` with a panic of the real function (overflow check, assertion) reported as the observation,
+/// followed by the direct arithmetic oracle of C17 / C12 on the value the real function returned.
+pub fn eval_caught(toks: &[&str]) -> String {
+    let r = std::panic::catch_unwind(std::panic::AssertUnwindSafe(|| eval(toks)));
+    let mut s = match r {
+        Ok(s) => s,
+        Err(p) => {
+            let msg = p.downcast_ref::<String>().cloned().or_else(|| p.downcast_ref::<&str>().map(|x| x.to_string())).unwrap_or_default();
+            format!("panic ORACLE-ARITH(the_function_panicked:_{})", msg.replace([' ', '(', ')'], "_"))
+        }
+    };
+    if let Some(why) = arith_oracle(toks, &s) {
+        s.push_str(&format!(" ORACLE-ARITH({})", why.replace([' ', '(', ')'], "_")));
+    }
+    s
+}
+
+/// Property C17 evaluated directly on what the implementation returned (independent of the model):
+/// a layout that is returned must be a valid `Layout` (size rounded up to the alignment at most
+/// isize::MAX), hold `buckets` elements below the control bytes without overlap, and place the control
+/// bytes at a multiple of the control alignment; a bucket count that is returned must be a power of two
+/// whose usable capacity covers the request.
+fn arith_oracle(toks: &[&str], got: &str) -> Option<String> {
+    let n = |i: usize| -> u128 { toks[i].parse::<u128>().unwrap() };
+    let w = hv::GROUP_WIDTH as u128;
+    match (toks[0], toks[1]) {
+        ("fn", "layout") => {
+            let f: Vec<&str> = got.split_whitespace().collect();
+            if f.first() != Some(&"some") {
+                return None;
+            }
+            let (len, align, off): (u128, u128, u128) = (f[1].parse().ok()?, f[2].parse().ok()?, f[3].parse().ok()?);
+            let (size, ctrl_align, buckets) = (n(2), n(3), n(4));
+            if align != ctrl_align {
+                return Some(format!("layout align {} is not the control alignment {}", align, ctrl_align));
+            }
+            if len > (isize::MAX as u128) - (align - 1) {
+                return Some(format!("layout size {} exceeds isize::MAX - (align-1): not a valid Layout", len));
+            }
+            if off % align != 0 {
+                return Some(format!("control offset {} is not a multiple of {}", off, align));
+            }
+            if size * buckets > off {
+                return Some(format!("{} elements of {} bytes do not fit below control offset {}", buckets, size, off));
+            }
+            if len != off + buckets + w {
+                return Some(format!("layout size {} != ctrl offset {} + buckets {} + group width", len, off, buckets));
+            }
+            None
+        }
+        ("fn", "c2b") => {
+            let f: Vec<&str> = got.split_whitespace().collect();
+            if f.first() != Some(&"some") {
+                return None;
+            }
+            let b: u128 = f[1].parse().ok()?;
+            let cap = n(2);
+            let c = hv::bucket_mask_to_capacity((b - 1) as usize) as u128;
+            if !(b as u64).is_power_of_two() || c < cap || c >= b {
+                return Some(format!("capacity_to_buckets({}) = {}: not a power of two covering the request (usable {})", cap, b, c));
+            }
+            None
+        }
+        _ => None,
+    }
+}
+
 /// Evaluate one `fn …` / `fnrange …` line on the real code.
 pub fn eval(toks: &[&str]) -> String {
     let n = |i: usize| -> usize { toks[i].parse::<u128>().unwrap() as usize };
